@@ -43,8 +43,8 @@ import (
 )
 
 // runAudit runs the added families on case numbers base, base+1, ... (after every case that existed before) and
-// returns the number of endorsements issued and checked.
-func runAudit(c *core.Ctx, base int) int {
+// returns the number of endorsements issued and checked and the first case number after its own.
+func runAudit(c *core.Ctx, base int) (int, int) {
 	issued := 0
 	i := base
 	var nReuse, nPar, nFault, nEnv int
@@ -76,7 +76,7 @@ func runAudit(c *core.Ctx, base int) int {
 	c.Floor("parallel-batches-issued-endorsements", nPar > 0)
 	c.Floor("faulted-endorse-runs-issued-endorsements", nFault > 0)
 	c.Floor("environment-histories-issued-endorsements", nEnv > 0)
-	return issued
+	return issued, i
 }
 
 func newHist(c *core.Ctx, idx int, gname string, a *authority.Assembly) *hist {
